@@ -360,6 +360,24 @@ def run(repo, chk):
                             bad_.append(norm(k_.value))
         chk.ob("R15.5", f"selector.{fname}:appends-in-source-order", not bad_ and n_ >= 1, fi_.where,
                f"new captures / children are appended after the existing ones ({n_} site(s)): `f(a) > x` and `f(a, !x)` list their captures in the same order" + (f" -- {bad_}" if bad_ else ""))
+    # the context (root / incall) of an operand is the context of the whole expression, except inside call parentheses
+    ctx_bad, ctx_n = [], 0
+    for q, fi_ in sorted(repo.functions.items()):
+        if fi_.module != "selector" or fi_.parent is not None:
+            continue
+        if not any(isinstance(d, ast.Call) and norm(d.func) == "evaluate.register_action" for d in fi_.node.decorator_list):
+            continue
+        cparam = next((a.arg for a in fi_.node.args.args if a.arg == "context"), None)
+        for c_ in ast.walk(fi_.node):
+            if isinstance(c_, ast.Call) and is_name(c_.func, "evaluate") and c_.args:
+                ctx_n += 1
+                k_ = kwarg(c_, "context")
+                want_ = "'incall'" if (fi_.node.name == "make_call_capture" and norm(c_.args[0]) == fi_.node.args.args[2].arg) else cparam
+                if k_ is None or norm(k_) != want_:
+                    ctx_bad.append(f"{fi_.node.name}: evaluate({norm(c_.args[0])}, context={norm(k_) if k_ is not None else 'missing'}) (expected context={want_})")
+    chk.ob("R15.5", "selector.actions:context-propagation", not ctx_bad and ctx_n >= 10, "ptera/selector.py",
+           f"every operand is evaluated in the context of the whole expression, only the argument list of a call is 'incall' ({ctx_n} operand evaluations): "
+           "`a > f() as r` focuses #value exactly like `f() as r` does at the root (= `a(f(!#value as r))`)" + (f" -- {ctx_bad}" if ctx_bad else ""))
     mf = repo.func("selector.make_focus")
     chk.ob("R15.5", "selector.make_focus:!-is-with_focus", facts_of(mf).has("return element.with_focus()", exactly=[]) and len(returns_of(mf.node)) == 1, mf.where, "`!x` focuses x")
 
